@@ -41,6 +41,7 @@ RULES: Dict[str, Callable] = {
     "R-POWER": _cached("R-POWER", anchored.run_power),
     "R-CARRIER": _cached("R-CARRIER", anchored.run_carrier),
     "R-PRODAXES": _cached("R-PRODAXES", anchored.run_prodaxes),
+    "R-RANKSEL": _cached("R-RANKSEL", anchored.run_ranksel),
     "R-REGISTRAR": _cached("R-REGISTRAR", anchored.run_registrar),
     "R-OUTER": _cached("R-OUTER", anchored.run_outer),
     "R-NONE": _cached("R-NONE", anchored.run_none),
@@ -327,6 +328,7 @@ PLAN: Dict[str, dict] = {
             S("R-NONE", "axis / shape arguments that are 0 or () are honoured like numpy does"),
             G("R-LEAD", "argmax/argmin/amax/amin rank float coefficients exactly (the proxy holds ranks, not truncated values)", only=in_funcs("sortable_proxy")),
             G("R-PRODAXES", "prod accepts the negative axes numpy accepts (the axis is normalised before it is used as a count)", only=msg("negative axis")),
+            G("R-RANKSEL", "amax/amin along an axis pair every reduced rank with its own element (inverse of the proxy permutation)"),
         ],
         "explanation": "Last sentence in full: in true_divide/floor_divide/remainder/divmod every path to the numeric ufunc or to a "
                        "normal return passed divisor.isconstant() and the other edge raises FeatureNotSupported. Every registered "
@@ -481,7 +483,7 @@ EXTRA_EXPLANATION = {
     "C07": " The term walk iterates the glexsort permutation on every path (no storage-order shortcut); maximum/minimum select through where() in a dtype depending on both operands.",
     "C08": " A function that REDUCE_MAPPINGS/ACCUMULATE_MAPPINGS map to is entered in the table __array_ufunc__ consults; functions that also exist as ndarray methods keep the names like the method does; a wrapper that calls itself recursively forwards every shared parameter.",
     "C10": " The reduction methods of ndpoly forward every parameter to the function spelling; a wrapper that calls itself recursively forwards every shared parameter.",
-    "C11": " sortable_proxy (behind argmax/argmin/amax/amin) writes coefficient values into its integer proxy only as ranks.",
+    "C11": " sortable_proxy (behind argmax/argmin/amax/amin) writes coefficient values into its integer proxy only as ranks; amax/amin fetch the element of every reduced rank through argsort(proxy.ravel()) (a boolean-mask selection re-ordered by the ranks alone permutes the result as soon as an axis is given).",
     "C12": " A result whose terms were all filtered away keeps the dtype of its inputs; the constant one that seeds a power carries the base's dtype.",
     "C13": " reshape (through which loadtxt restores the shape) re-wraps the storage with the polynomial's names.",
     "C14": " Library code outside option.py that calls set_options itself restores every key it changed from a snapshot on every exit (O9), and no generator yields inside 'with global_options' (O10).",
